@@ -83,6 +83,11 @@ def build_harness(libdir, variant="plain"):
             return exe, False, r.stdout + r.stderr
         os.rename(exe + ".tmp", exe)
         shutil.rmtree(odir, ignore_errors=True)
+        # disk: older harness binaries / object directories of this library build are not needed any more
+        for f in os.listdir(libdir):
+            q = os.path.join(libdir, f)
+            if (f.startswith("spqh-") or f.startswith("hobj-")) and q != exe:
+                shutil.rmtree(q, ignore_errors=True) if os.path.isdir(q) else os.unlink(q)
         return exe, True, "built"
 
 
